@@ -547,6 +547,82 @@ func S2m(tier string) *Scenario {
 	return scenFrom("S2m-batch-modification-chains", cfg, pre, bud, al, nil).tagged("ledger")
 }
 
+// S11: a long book. Twelve bids are placed in the preamble (no branching), so that bid ids reach two
+// digits, several bids share a price across one- and two-digit ids, one bidder's cap is exceeded by
+// their own bids, and listings have more than ten elements; the menu then adds a little and settles
+// through one extension round. Anything that orders, pages or sums bids by a derived key meets ids >= 10 here.
+func S11(tier string) *Scenario {
+	cfg := world.Config{Balances: map[string]sdk.Coins{
+		"auc1": coins("60acoin,10bcoin"), "bid1": coins("400bcoin"), "bid2": coins("400bcoin"), "bid3": coins("400bcoin"),
+	}, Params: params("", "", 1)}
+	many := func(b, price, amt string) Op {
+		return Op{Kind: "place", Signer: b, AID: 0, BidType: ref.BidMany, Price: price, Denom: "acoin", Amt: amt}
+	}
+	worth := func(b, price, amt string) Op {
+		return Op{Kind: "place", Signer: b, AID: 0, BidType: ref.BidWorth, Price: price, Denom: "bcoin", Amt: amt}
+	}
+	pre := []Op{
+		{Kind: "create_batch", Signer: "auc1", StartPrice: "1", MinPrice: "0.1", Sell: "30acoin", PayDenom: "bcoin", StartK: 0, EndK: 2, Sched: sched(4, 5), MaxExt: 1, Rate: "0.5"},
+		{Kind: "add_allowed", AID: 0, Bidder: "bid1", Max: "30"},
+		{Kind: "add_allowed", AID: 0, Bidder: "bid2", Max: "12"},
+		{Kind: "add_allowed", AID: 0, Bidder: "bid3", Max: "30"},
+		many("bid1", "3", "2"), many("bid2", "2", "3"), worth("bid3", "2", "6"), many("bid1", "1", "4"),
+		many("bid2", "1.5", "3"), worth("bid1", "1", "5"), many("bid3", "2.5", "2"), many("bid2", "1", "4"),
+		worth("bid3", "0.5", "4"), many("bid1", "2", "3"), many("bid3", "2", "5"), many("bid2", "2", "4"),
+	}
+	al := &Alphabet{
+		Bidders: []string{"bid1", "bid2"}, AllowBidders: []string{"bid2"},
+		UpdateCaps:  []string{"5"},
+		BatchPrices: []string{"2"}, WorthAmts: []string{"6"}, ManyAmts: []string{"3"},
+		ModPrices: []string{"3"},
+		MaxK:      6, BlockStops: []int{2, 3, 5},
+	}
+	bud := Budget{"update": 1, "bid": 1, "mod": 1, "block": 3}
+	if tier == "thorough" {
+		al.BatchPrices = []string{"1", "2"}
+		bud = Budget{"update": 1, "bid": 2, "mod": 2, "block": 4}
+	}
+	return scenFrom("S11-twelve-bid-book", cfg, pre, bud, al, nil).tagged("ledger")
+}
+
+// S12: eleven small fixed-price auctions created in the preamble by two auctioneers (ids 0..10), with
+// different end times and two vesting schedules; bidders listed in a one-digit and the two-digit id.
+// The block hook, the queries and the id assignment meet more than ten auctions here.
+func S12(tier string) *Scenario {
+	cfg := world.Config{Balances: map[string]sdk.Coins{
+		"auc1": coins("40acoin"), "auc2": coins("40acoin"), "bid1": coins("40acoin,40bcoin"), "bid2": coins("40acoin,40bcoin"),
+	}, Params: params("", "", 1)}
+	var pre []Op
+	for i := 0; i < 11; i++ {
+		op := Op{Kind: "create_fixed", Signer: []string{"auc1", "auc2"}[i%2], StartPrice: "1", Sell: "2acoin", PayDenom: "bcoin", StartK: 0, EndK: 2 + i%2}
+		if i == 2 || i == 10 {
+			op.Sched = sched(4, 5)
+		}
+		if i == 5 {
+			op.StartK = 2 // still waiting at the first blocks
+			op.EndK = 4
+		}
+		pre = append(pre, op)
+	}
+	pre = append(pre,
+		Op{Kind: "add_allowed", AID: 2, Bidder: "bid1", Max: "2"},
+		Op{Kind: "add_allowed", AID: 10, Bidder: "bid1", Max: "2"},
+		Op{Kind: "add_allowed", AID: 10, Bidder: "bid2", Max: "1"},
+		Op{Kind: "add_allowed", AID: 9, Bidder: "bid2", Max: "2"},
+	)
+	al := &Alphabet{
+		Bidders: []string{"bid1", "bid2"}, FixedAmts: []string{"1", "2"},
+		Cancellers: []string{"auc2"},
+		Creates:    []Op{{Kind: "create_fixed", Signer: "auc1", StartPrice: "1", Sell: "2acoin", PayDenom: "bcoin", StartK: 0, EndK: 5}},
+		MaxK:       5, BlockStops: []int{2, 3, 4, 5},
+	}
+	bud := Budget{"bid": 2, "block": 3, "create": 1, "cancel": 1}
+	if tier == "thorough" {
+		bud = Budget{"bid": 3, "block": 4, "create": 1, "cancel": 1, "tick": 1}
+	}
+	return scenFrom("S12-eleven-auctions", cfg, pre, bud, al, nil)
+}
+
 // withEntryIDMismatch also offers AddAllowedBidders calls whose entry carries another auction's id.
 func (s *Scenario) withEntryIDMismatch() *Scenario {
 	if s.al != nil {
